@@ -6,10 +6,21 @@ From M Require FpStr.
 From M Require IntFmtProofs.
 From M Require Tie.
 From M Require CopyText.
+From M Require DtostreLayout.
 From M Require BufModel.
+From M Require Dtostre.
+From M Require DtostreCases1.
+From M Require DtostreCases2.
+From M Require DtostreCases3.
+From M Require DtostreSpec.
 From M Require FmtModel.
 From M Require GFmt.
+From M Require GFmtSpec.
+From M Require ILog.
+From M Require NumDecode.
+From M Require NumSyntax.
 From M Require ParserModel.
+From M Require RtFloat.
 Import ListNotations.
 
 Module T_number_to_str_bounded. Import BufProofs. Local Open Scope bool_scope. Local Open Scope Z_scope.
@@ -122,4 +133,23 @@ Theorem C15_param_text_len0 :
 Proof. exact (@CopyText.param_text_len0). Qed.
 End T_param_text_len0.
 Definition C15_param_text_len0 := @T_param_text_len0.C15_param_text_len0.
+
+Module T_tie_dtostre_buf. Import Tie. Local Open Scope bool_scope. Local Open Scope Z_scope.
+Local Open Scope Z_scope.
+Theorem C15_tie_dtostre_buf :
+  Generated.gen_dtostre_buf = Z.of_nat (length (fst (Dtostre.setb (repeat Dtostre.UNINIT 32) 0 0))) /\ Generated.gen_dtostre_buf = 32.
+Proof. exact (@Tie.tie_dtostre_buf). Qed.
+End T_tie_dtostre_buf.
+Definition C15_tie_dtostre_buf := @T_tie_dtostre_buf.C15_tie_dtostre_buf.
+
+Module T_dtostre_layout. Import DtostreLayout. Local Open Scope bool_scope. Local Open Scope Z_scope.
+Import GFmt NumDecode NumSyntax GFmtSpec ILog RtFloat Dtostre DtostreSpec DtostreCases1 DtostreCases2 DtostreCases3. Local Open Scope Z_scope.
+Local Open Scope Z_scope.
+Theorem C15_dtostre_layout :
+  forall P ds k neg,
+  1 <= P <= 15 -> length ds = Z.to_nat P -> Forall isdig ds -> (exists c, In c ds /\ c <> 48) ->
+  -400 <= k <= 400 -> layout ds k P neg = (g_text neg P ds (k - 1), false).
+Proof. exact (@DtostreLayout.dtostre_layout). Qed.
+End T_dtostre_layout.
+Definition C15_dtostre_layout := @T_dtostre_layout.C15_dtostre_layout.
 
